@@ -355,7 +355,7 @@ def spec_to_code(ctx):
     nwalks = len(walks)
     # (b) simulated behaviours of the wide model (depth 8, all shapes incl. LEFT$/MID$/DEF FN)
     nb = ctx.pick(250, 4000)
-    r = ctx.tlc('StringSpace_MC', 'StringSpace_MC_sim.cfg', workers=4, simulate='num=%d' % nb, tag='simulate',
+    r = ctx.tlc('StringSpace_MC', 'StringSpace_MC_sim.cfg', workers=1, simulate='num=%d' % nb, tag='simulate',
                 extra=['-depth', '9', '-seed', str(ctx.seed + 1)])
     if not r['ok']:
         ctx.reject('TLC simulation of StringSpace_MC (wide grammar) failed: %s' % r['error'],
